@@ -2,10 +2,11 @@
    resolves.  Statements only; proofs are in ProofsVarEval.v.
 
    PARTIAL.  Proved:
-   - termination on the reference fragment: for EVERY tree whose dynamic values are plain
-     references (any shape and depth; references may be cyclic, dangling, point into lists, at
-     containers or at other references), read without Env configs and resolvers, every read is
-     decided - a value or an error - as soon as the fuel exceeds the number of references
+   - termination on the reference fragment: for EVERY tree and EVERY list of Env configs whose
+     dynamic values are plain references (any shape and depth; references may be cyclic,
+     dangling, point into lists, at containers or at other references, lead from one tree into
+     another), read without resolvers, every read is decided - a value or an error - as soon as
+     the fuel exceeds the number of references of all the trees together
      (c08_plain_references_terminate), by a measure argument: every nested evaluation adds a new
      reference name to the active set, a name that is active is reported as cyclic at once;
    - fuel irrelevance for EVERY tree, expression, Env and resolver: an outcome obtained with some
@@ -16,16 +17,16 @@
      resolver knowing the name absorbs the error, and the names registered while one piece of an
      expression is evaluated are not visible to the next piece (repeated uses and diamonds are no
      cycles).
-   NOT proved: termination with splices, Env configs and resolvers (names are computed there);
+   NOT proved: termination with splices and resolvers (names are computed there);
    the correspondence run counts the evaluations the model leaves undecided (verdict 8) and the
    harness reports a read of the implementation that does not return (XHang / crash replay) as
    a violation. *)
 From Ucfg Require Import Base ParseInt Consts Field Tree PathOps Merge OTree F64 ParseValue VarParse
      Normalize Flags Ops VarEval ProofsVarEval ProofsFuel ProofsTerm.
 
-Theorem c08_plain_references_terminate : forall o root names fuel name idx,
-  eo_envs o = [] -> eo_res o = [] -> refs_only (eo_ftext o) names root = true ->
-  (List.length names < fuel)%nat -> read_string o fuel root name idx <> OutOfModel.
+Theorem c08_plain_references_terminate : forall o own names fuel name idx,
+  eo_res o = [] -> forallb (refs_only (eo_ftext o) names) (own :: eo_envs o) = true ->
+  (List.length names < fuel)%nat -> read_string o fuel own name idx <> OutOfModel.
 Proof. exact plain_references_terminate. Qed.
 Print Assumptions c08_plain_references_terminate.
 
@@ -40,23 +41,26 @@ Proof. exact reify_loc_fuel. Qed.
 Print Assumptions c08_fuel_is_irrelevant_unpack.
 
 Theorem c08_termination_example :
-  let o := {| eo_p := {| p_sep := "."; p_maxIdx := 1024; p_numKeys := false; p_escape := false |};
-              eo_envs := []; eo_res := []; eo_noparse := false; eo_nocomma := false;
-              eo_n := {| n_p := {| p_sep := "."; p_maxIdx := 1024; p_numKeys := false; p_escape := false |};
-                         n_varexp := true; n_m := {| m_h := 0%N; m_ft := None |} |};
+  let po := {| p_sep := "."; p_maxIdx := 1024; p_numKeys := false; p_escape := false |} in
+  let e1 := VSub [("s", ("s", VRef [FName "u"] ".")); ("v", ("v", VStr "env1"))] None in
+  let e2 := VSub [("u", ("u", VSub [("inner", ("inner", VRef [FName "v"] "."))] None)); ("v", ("v", VStr "env2"))] None in
+  let o := {| eo_p := po; eo_envs := [e1; e2]; eo_res := []; eo_noparse := false; eo_nocomma := false;
+              eo_n := {| n_p := po; n_varexp := true; n_m := {| m_h := 0%N; m_ft := None |} |};
               eo_ftext := [] |} in
   let root := VSub [("a", ("a", VRef [FName "b"] "."));
                     ("b", ("b", VRef [FName "a"] "."));
                     ("c", ("c", VRef [FName "nowhere"] "."));
                     ("d", ("d", VRef [FName "l"; FIdx 1] "."));
                     ("e", ("e", VRef [FName "d"] "."));
-                    ("l", ("l", VSub [] (Some [("0", VInt 1); ("1", VStr "one")])))] None in
-  let names := ["b"; "a"; "nowhere"; "l.1"; "d"] in
-  refs_only (eo_ftext o) names root = true /\
-  (forall fuel name idx, (5 < fuel)%nat -> read_string o fuel root name idx <> OutOfModel) /\
-  read_string o 6 root "a" (-1) = Err ECyclic "" /\
-  read_string o 6 root "c" (-1) = Err EMissing "!raw" /\
-  read_string o 6 root "e" (-1) = Ok "one".
+                    ("l", ("l", VSub [] (Some [("0", VInt 1); ("1", VStr "one")])));
+                    ("x", ("x", VRef [FName "s"; FName "inner"] "."))] None in
+  let names := ["b"; "a"; "nowhere"; "l.1"; "d"; "s.inner"; "u"; "v"] in
+  forallb (refs_only (eo_ftext o) names) (root :: eo_envs o) = true /\
+  (forall fuel name idx, (8 < fuel)%nat -> read_string o fuel root name idx <> OutOfModel) /\
+  read_string o 9 root "a" (-1) = Err ECyclic "" /\
+  read_string o 9 root "c" (-1) = Err EMissing "!raw" /\
+  read_string o 9 root "e" (-1) = Ok "one" /\
+  read_string o 9 root "x" (-1) = Ok "env2".
 Proof. exact termination_example. Qed.
 Print Assumptions c08_termination_example.
 
